@@ -105,10 +105,10 @@ type result struct {
 	atClose   int64 // data source lookups started when Close returned (-1: Close not called)
 }
 
-func check(c Case) error {
-	d := &ds{hist: map[osm.RelationID]osm.Relations{}, slow: c.SlowDS}
-	has := map[int64]bool{}
-	edges := map[int64]map[int64]bool{}
+func build(c Case) (d *ds, has map[int64]bool, edges map[int64]map[int64]bool, req []osm.RelationID) {
+	d = &ds{hist: map[osm.RelationID]osm.Relations{}, slow: c.SlowDS}
+	has = map[int64]bool{}
+	edges = map[int64]map[int64]bool{}
 	for _, r := range c.Rels {
 		if len(r.Versions) == 0 {
 			continue
@@ -126,11 +126,14 @@ func check(c Case) error {
 			d.hist[rel.ID] = append(d.hist[rel.ID], rel)
 		}
 	}
-	var req []osm.RelationID
 	for _, r := range c.Request {
 		req = append(req, osm.RelationID(r))
 	}
+	return
+}
 
+func check(c Case) error {
+	d, has, edges, req := build(c)
 	ctx, cancel := context.WithCancel(context.Background())
 	defer cancel()
 	done := make(chan result, 1)
@@ -188,6 +191,11 @@ func check(c Case) error {
 		}
 		time.Sleep(time.Millisecond)
 	}
+	return judge(c, d, has, edges, res)
+}
+
+// judge checks the emitted ids of one iteration against the reference graph.
+func judge(c Case, d *ds, has map[int64]bool, edges map[int64]map[int64]bool, res result) error {
 	if now := atomic.LoadInt64(&d.calls); res.atClose >= 0 && now != res.atClose {
 		return harness.Failf("C14/lookup-after-close", "Close returned after %d data source lookups, yet %d more were started afterwards (stop after %d Next calls): the goroutine outlived Close", res.atClose, now-res.atClose, c.StopAt)
 	}
@@ -441,6 +449,88 @@ func TestDeepChains(t *testing.T) {
 		},
 		Describe: func(c Case) any {
 			return map[string]any{"depth": len(c.Rels), "request_len": len(c.Request), "first_requests": c.Request[:min(len(c.Request), 8)]}
+		},
+	})
+}
+
+// ---------------------------------------------------------------- two orderings alive at once
+
+type PairCase struct {
+	A, B  Case // both without early stop
+	After int  // ids taken from A before B is created and run to its end
+}
+
+func TestTwoOrderings(t *testing.T) {
+	gen := func(t *rapid.T, l string) Case {
+		// acyclic chains with shortcuts: depth makes the walk hold a long path
+		n := rapid.IntRange(3, 30).Draw(t, l+"n")
+		c := Case{}
+		for id := 1; id <= n; id++ {
+			ver := Version{}
+			if id < n {
+				ver.Members = append(ver.Members, Member{Type: "relation", Ref: int64(id + 1)})
+			}
+			if id+2 <= n && rapid.Bool().Draw(t, l+"skip") {
+				ver.Members = append(ver.Members, Member{Type: "relation", Ref: int64(rapid.IntRange(id+2, n).Draw(t, l+"to"))})
+			}
+			c.Rels = append(c.Rels, Rel{ID: int64(id), Versions: []Version{ver}})
+		}
+		c.Request = []int64{1}
+		if rapid.Bool().Draw(t, l+"more") {
+			c.Request = append(c.Request, int64(rapid.IntRange(1, n).Draw(t, l+"req")))
+		}
+		return c
+	}
+	harness.Run(t, harness.Spec[PairCase]{
+		Name: "two-orderings", N: 400,
+		Rule: "two orderings over independent acyclic graphs (chains of 3..30 relations with shortcut edges) alive at the same time: k ids are taken from the first, then the second is created and iterated to its end, then the first is finished; oracle = each emitted sequence satisfies the ordering sub-check's oracle for its own graph; non-trivial = both graphs have >= 3 relations",
+		Gen: func(t *rapid.T) PairCase {
+			a, b := gen(t, "a"), gen(t, "b")
+			// the same id range in half of the cases (state leaking from one ordering
+			// into the other then looks like a visited id or a cycle), disjoint
+			// ranges otherwise (a foreign id then shows up as unrelated)
+			if rapid.Bool().Draw(t, "disjoint") {
+				b.mapIDs(func(id int64) int64 { return id + 1000 })
+			}
+			return PairCase{A: a, B: b, After: rapid.IntRange(0, 5).Draw(t, "after")}
+		},
+		Check: func(c PairCase) error {
+			done := make(chan error, 1)
+			go func() {
+				da, hasA, edgesA, reqA := build(c.A)
+				db, hasB, edgesB, reqB := build(c.B)
+				oa := annotate.NewChildFirstOrdering(context.Background(), reqA, da)
+				ra, rb := result{atClose: -1}, result{atClose: -1}
+				for len(ra.got) < c.After && oa.Next() {
+					ra.got = append(ra.got, int64(oa.RelationID()))
+				}
+				ob := annotate.NewChildFirstOrdering(context.Background(), reqB, db)
+				for ob.Next() && len(rb.got) <= 10000 {
+					rb.got = append(rb.got, int64(ob.RelationID()))
+				}
+				rb.err = ob.Err()
+				ob.Close()
+				for oa.Next() && len(ra.got) <= 10000 {
+					ra.got = append(ra.got, int64(oa.RelationID()))
+				}
+				ra.err = oa.Err()
+				oa.Close()
+				if err := judge(c.B, db, hasB, edgesB, rb); err != nil {
+					done <- err
+					return
+				}
+				done <- judge(c.A, da, hasA, edgesA, ra)
+			}()
+			select {
+			case err := <-done:
+				return err
+			case <-time.After(20 * time.Second):
+				return harness.Failf("C14/deadlock", "two orderings alive at once did not finish within 20s; goroutines in ordering frames:\n%s", orderingGoroutines())
+			}
+		},
+		Classify: func(c PairCase) (bool, []string) { return len(c.A.Rels) >= 3 && len(c.B.Rels) >= 3, nil },
+		Describe: func(c PairCase) any {
+			return map[string]any{"relations_a": len(c.A.Rels), "relations_b": len(c.B.Rels), "taken_from_a_first": c.After}
 		},
 	})
 }
